@@ -437,12 +437,22 @@ pub fn run_program(rom: &RomImage, mode: u8, steps: u32, buttons: &[ButtonEvent]
             obs.button(b & 7, down);
             bi += 1;
         }
-        let info = if mode == 0 { r.step_instruction() } else { r.step_block(100_000) };
-        if info.out_of_domain.is_some() {
+        // instruction-stepped: the reference first; block-stepped: the emulator first, the
+        // reference then consumes the time it delivered (block extents are the emulator's)
+        let mut info = None;
+        if mode == 0 {
+            let i0 = r.step_instruction();
+            if i0.out_of_domain.is_some() {
+                out.left_domain = true;
+                break;
+            }
+            info = Some(i0);
+        } else if r.next_out_of_domain().is_some() {
             out.left_domain = true;
             break;
         }
         let pc0 = a.regs().pc;
+        let before = a.clocks_total();
         let was_running = a.run_state() == RUN;
         let was_stopped = a.run_state() == crate::mach::STOPPED;
         let res = guarded(|| {
@@ -453,10 +463,22 @@ pub fn run_program(rom: &RomImage, mode: u8, steps: u32, buttons: &[ButtonEvent]
             }
         });
         if res.is_err() {
-            // a panic of the core: C04 / C09 / C11 report it
+            // a panic of the core (or a block running into an undefined opcode): C04 / C09 / C11 judge it
             out.cpu_diverged = true;
             break;
         }
+        let delta = a.clocks_total().wrapping_sub(before);
+        let info = match info {
+            Some(i0) => i0,
+            None => {
+                let i1 = r.step_block_as(delta);
+                if i1.out_of_domain.is_some() {
+                    out.left_domain = true;
+                    break;
+                }
+                i1
+            }
+        };
         out.steps = step + 1;
         if diff_regs(&a.regs(), &r.regs(), true, false).is_some() || a.run_state() != crate::refmach::run_code(r.run) {
             out.cpu_diverged = true;
